@@ -177,7 +177,11 @@ func bytesOf(u []uint) string {
 }
 
 func parse16(p url.Parser, c Case16) parsed {
+	// (what a parser or profile returns must not depend on what it was asked before: the same text
+	// under a scheme of the other class goes first, as in C17 / C18)
+	interfereProfile(p, string(c.Input))
 	if c.HasBase {
+		interfereProfile(p, string(c.Base))
 		u, err := p.ParseRef(string(c.Base), string(c.Input))
 		return parsed{u, err}
 	}
